@@ -147,6 +147,10 @@ Theorem C14_negative_literal_is_runtime : forall z, (z < 0)%Z -> aarg_of (MLit (
 Proof. exact negative_literal_is_runtime. Qed.
 Print Assumptions C14_negative_literal_is_runtime.
 
+Theorem C14_computed_expression_is_runtime : forall v, aarg_of (MComputed v) = ARun.
+Proof. exact computed_expression_is_runtime. Qed.
+Print Assumptions C14_computed_expression_is_runtime.
+
 (* the comparison used by the harness check is exact: "ok" means Leibniz equality of the two analysis views *)
 Theorem C14_check_same_ok : forall m expected, check_same m expected = "ok"%string -> discover m = expected.
 Proof. exact check_same_ok. Qed.
